@@ -20,6 +20,8 @@ func main() {
 		cmdCheck(os.Args[2:])
 	case "list":
 		cmdList(os.Args[2:])
+	case "sweep":
+		cmdSweep(os.Args[2:])
 	default:
 		fatal("unknown command %s", os.Args[1])
 	}
